@@ -194,3 +194,49 @@ void_rule = Unit(
     raises=[],
 )
 LIST_UNITS += [void_rule]
+
+
+# ---------------------------------------------------------------------------------------------------------
+# RecursiveDescent.next itself (the trusted step of the units above): whatever the current token is -- None right after
+# the constructor, a token, or EOF already -- it leaves a token object in self.token and raises nothing; once the
+# generator is exhausted the token is EOF.  The generator is modelled by the two outcomes of the builtin next().
+def _mk_token(ex, st, args, kw, node):
+    vals = list(args) + [None] * 4
+    return st.alloc(HObj("Token", {"typ": vals[0], "value": vals[1], "line": vals[2], "column": vals[3]}))
+
+
+def _builtin_next(exhausted):
+    def call(ex, st, args, kw, node):
+        if exhausted:
+            from pyvc.state import RaiseSignal
+            raise RaiseSignal("StopIteration", [])
+        typ = z3.String(fresh_name("gen_typ"))
+        st.assume(typ != z3.StringVal("EOF"))            # tokenize() never yields an EOF token itself
+        col = z3.Int(fresh_name("gen_col"))
+        st.assume(col >= 0)
+        return st.alloc(HObj("Token", {"typ": VStr(typ), "value": VStr(z3.String(fresh_name("gen_val"))),
+                                       "line": VInt(z3.Int(fresh_name("gen_line"))), "column": VInt(col)}))
+    return VFun("builtin next(generator)[%s]" % ("exhausted: StopIteration" if exhausted else "yields a token"), call)
+
+
+def _next_unit(exhausted, first):
+    tok = "none" if first else ("obj", "Token", {"typ": "str", "value": ("opt", "str"), "line": "int", "column": "int"})
+    u = Unit(
+        prop="C17", name="RecursiveDescent.next[%s, %s]" % ("generator exhausted" if exhausted else "token available",
+                                                           "first call (self.token is None)" if first else "later call"),
+        target="shroud/declast.py::RecursiveDescent.next",
+        params={"self": ("obj", "Parser", {"token": tok, "tokenizer": "opaque", "trace": ("const", False), "indent": "int"})},
+        callees=dict(HOOKS),
+        # only the synthetic EOF token has no text
+        requires=[] if first else ["implies(self.token.typ != 'EOF', self.token.value is not None)"],
+        ensures=["self.token is not None", "self.token.typ == 'EOF'" if exhausted else "self.token.typ != 'EOF'"],
+        raises=[],
+    )
+    u.global_callees["next"] = _builtin_next(exhausted)
+    u.global_callees["Token"] = VFun("Token(typ, value, line, column)", _mk_token)
+    u.pure_callees = ["next", "Token", "info"]
+    return u
+
+
+NEXT_UNITS = [_next_unit(e, f) for e in (True, False) for f in (True, False)]
+UNITS += NEXT_UNITS
